@@ -11,6 +11,7 @@ import (
 	"os/exec"
 	"path/filepath"
 	"runtime"
+	"runtime/pprof"
 	"sort"
 	"strconv"
 	"strings"
@@ -224,6 +225,21 @@ func worker(w string, cases []Case) {
 	out := bufio.NewWriter(os.Stdout)
 	var current atomic.Value
 	current.Store("")
+	if d := os.Getenv("E1_MEMPROF"); d != "" && i == 0 {
+		go func() {
+			for k := 0; ; k++ {
+				time.Sleep(45 * time.Second)
+				f, err := os.Create(fmt.Sprintf("%s/heap.%d.pprof", d, k))
+				if err == nil {
+					pprof.WriteHeapProfile(f)
+					f.Close()
+				}
+				var ms runtime.MemStats
+				runtime.ReadMemStats(&ms)
+				fmt.Fprintf(os.Stderr, "E1MEM t=%d goroutines=%d heapAlloc=%dMB heapSys=%dMB heapIdle=%dMB released=%dMB stacks=%dMB sys=%dMB numGC=%d\n", k, runtime.NumGoroutine(), ms.HeapAlloc>>20, ms.HeapSys>>20, ms.HeapIdle>>20, ms.HeapReleased>>20, ms.StackSys>>20, ms.Sys>>20, ms.NumGC)
+			}
+		}()
+	}
 	go func() {
 		for {
 			time.Sleep(2 * time.Second)
@@ -240,9 +256,23 @@ func worker(w string, cases []Case) {
 		}
 		current.Store(c.Sc.Name)
 		cr := runCase(c)
+		// a scenario's closures keep the objects of its last execution alive: let them go
+		cases[k].Sc, c.Sc = nil, nil
+		if os.Getenv("E1_MEMSTAT") != "" {
+			var ms runtime.MemStats
+			runtime.ReadMemStats(&ms)
+			if thr, _ := strconv.Atoi(os.Getenv("E1_BIG_MB")); ms.HeapAlloc > uint64(thr+1)<<20 && (thr > 0 || ms.HeapAlloc > 1<<30) {
+				fmt.Fprintf(os.Stderr, "E1BIG worker=%d heap=%dMB exec=%d after case %q\n", i, ms.HeapAlloc>>20, cr.Exec, cr.Name)
+			}
+		}
 		b, _ := json.Marshal(cr)
 		fmt.Fprintf(out, "E1RESULT %s\n", b)
 		out.Flush()
+	}
+	if os.Getenv("E1_MEMSTAT") != "" {
+		var ms runtime.MemStats
+		runtime.ReadMemStats(&ms)
+		fmt.Fprintf(os.Stderr, "E1MEM worker=%d goroutines=%d heap=%dMB sys=%dMB stacks=%dMB\n", i, runtime.NumGoroutine(), ms.HeapAlloc>>20, ms.Sys>>20, ms.StackSys>>20)
 	}
 	os.Exit(0)
 }
